@@ -80,7 +80,11 @@ func (g *gen) entryEnv(st *state) *env {
 
 func (g *gen) lookupCommon(e *env, name string) (sval, bool) {
 	if srt, ok := fileGhosts[name]; ok {
-		return sval{t: g.heapVar(e.st, "GHOST."+name, srt), sort: srt, gt: sortGoType(srt)}, true
+		gt := sortGoType(srt)
+		if fileGhostTypes[name] == "list" {
+			gt = g.P.listPtr()
+		}
+		return sval{t: g.heapVar(e.st, "GHOST."+name, srt), sort: srt, gt: gt}, true
 	}
 	if g.con != nil {
 		for _, gh := range g.con.Ghosts {
